@@ -9,7 +9,7 @@ sys.path.insert(0, os.path.dirname(os.path.abspath(__file__)))
 import simlib
 
 OCTOSQL = os.environ.get("VERIF_OCTOSQL", "/verif/.build/octosql")
-SHAPES = ["none", "where", "distinct", "order_by", "group_by", "join", "in_subquery", "scalar_subquery", "limit_small", "order_by_limit"]
+SHAPES = ["none", "where", "distinct", "order_by", "group_by", "join", "in_subquery", "scalar_subquery", "limit_small", "order_by_limit", "count_star"]
 MODES = ["json", "csv", "batch_table", "stream_native"]
 
 
@@ -91,6 +91,7 @@ def run_once(r):
             "scalar_subquery": "SELECT %s, (SELECT %s FROM %s%s) AS sub FROM %s%s" % (mid, xg, X, W(xw), M, W(mw)),
             "limit_small": "SELECT %s FROM %s%s LIMIT 2" % (mid, M, W(mw)),
             "order_by_limit": "SELECT %s FROM %s%s ORDER BY %s LIMIT 3" % (mid, M, W(mw), mid),
+            "count_star": "SELECT COUNT(*) AS c FROM %s%s" % (M, W(mw)),
         }[shape]
 
     attrs = {"source": kind, "shape": shape, "fault": fault, "output": mode}
